@@ -1,6 +1,70 @@
-(* Props/C16.v — property theorems only; proofs live in Proofs/. (placeholder while the pipeline is brought up) *)
-From Coq Require Import List NArith ZArith.
-From Cedar Require Import Lib.Bytes Lib.SymC16 Model.ClaimId.
-Theorem C16_kdf_secret : forall s i l k k', k <> k' -> Kdf s i l k <> Kdf s i l k'.
-Proof. exact kdf_secret_neq. Qed.
-Print Assumptions C16_kdf_secret.
+(* Props/C16.v — property theorems only; proofs live in Proofs/C16*.v. *)
+From Coq Require Import List NArith ZArith Bool.
+From Cedar Require Import Lib.Bytes Lib.SymC16 Model.ClaimId Proofs.C16Str Proofs.C16Main.
+Import ListNotations.
+
+(* For ALL minting options, every secret free of '#' and ']' (every lowercase-hex
+   secret is) and every clock: if MintClaimSession succeeds, ParseClaimIDStrict on
+   the minted text returns exactly the minted session id, session_info and secret. *)
+Theorem C16_parse_mint : forall o secret now m,
+  secret_ok secret -> mint o secret now = Ok m ->
+  exists info, export_info (mint_wire o now) = Ok info
+    /\ m_sid m = mint_sid o
+    /\ m_claim m = m_sid m ++ ch_hash :: info ++ secret
+    /\ parse_strict (m_claim m) = {| c_sid := m_sid m; c_info := info; c_key := secret |}.
+Proof. exact parse_mint. Qed.
+Print Assumptions C16_parse_mint.
+
+Theorem C16_hex_secret_ok : forall s, forallb is_lower_hex s = true -> secret_ok s.
+Proof. exact hex_secret_ok. Qed.
+Print Assumptions C16_hex_secret_ok.
+
+(* Minter and importer (any import options) register the same session: same id,
+   same key = HKDF(secret), same protocol, the same policy on every attribute but
+   the peer identity "User", and the same expiry (an absolute expiry carried by the
+   text always; a relative fallback when both sides were given the same one). *)
+Theorem C16_same_session : forall o secret now m io,
+  secret_ok secret -> mint o secret now = Ok m ->
+  exists e cmds,
+    import_claim (m_claim m) io = Ok (m_sid m, e, cmds)
+    /\ e_id e = e_id (m_entry m) /\ e_id e = m_sid m
+    /\ e_key e = e_key (m_entry m) /\ e_key e = Kdf S_htcondor S_keygen 32 secret
+    /\ e_proto e = e_proto (m_entry m)
+    /\ (forall n, n <> A_User -> plookup n (e_policy e) = plookup n (e_policy (m_entry m)))
+    /\ (io_duration_ns io = mo_lifetime_ns o -> e_expiry e = e_expiry (m_entry m))
+    /\ (forall s, e_expiry (m_entry m) = ExpAbs s -> e_expiry e = ExpAbs s)
+    /\ (forall s, e_expiry e = ExpAbs s -> e_expiry (m_entry m) = ExpAbs s).
+Proof. exact same_session. Qed.
+Print Assumptions C16_same_session.
+
+(* An importer whose text yields any other key string holds a different session key. *)
+Theorem C16_other_secret_other_key : forall o secret now m claim' io sid' e' cmds',
+  mint o secret now = Ok m ->
+  import_claim claim' io = Ok (sid', e', cmds') ->
+  c_key (parse_strict claim') <> secret ->
+  e_key e' <> e_key (m_entry m).
+Proof. exact other_secret_other_key. Qed.
+Print Assumptions C16_other_secret_other_key.
+
+Theorem C16_filetransfer_same_key : forall o secret now m io,
+  secret_ok secret -> mint o secret now = Ok m ->
+  exists e cmds,
+    import_ft (m_claim m) io = Ok (S_filetrans ++ m_sid m, e, cmds)
+    /\ e_id e = S_filetrans ++ m_sid m
+    /\ e_key e = e_key (m_entry m) /\ e_proto e = e_proto (m_entry m).
+Proof. exact ft_same_key. Qed.
+Print Assumptions C16_filetransfer_same_key.
+
+(* The public form is a function of the options alone: two mints with different
+   secrets (and clocks) have the same public claim id, sid ++ "#...". *)
+Theorem C16_public_no_secret : forall o s1 s2 now1 now2 m1 m2,
+  mint o s1 now1 = Ok m1 -> mint o s2 now2 = Ok m2 ->
+  m_public m1 = m_public m2 /\ m_public m1 = mint_sid o ++ S_public_tail.
+Proof. exact public_no_secret. Qed.
+Print Assumptions C16_public_no_secret.
+
+Theorem C16_public_of_parsed : forall o secret now m,
+  secret_ok secret -> mint o secret now = Ok m ->
+  public_of_parsed (parse_strict (m_claim m)) = m_public m.
+Proof. exact public_of_parsed_mint. Qed.
+Print Assumptions C16_public_of_parsed.
